@@ -119,6 +119,14 @@ func VF_C12_Serialized() {
 	}
 	vf.Quiesce() // the handlers release the lock in a deferred call after replying
 	vf.Assert(w.lockFree(1, vfKey), "C12 the per-key lock is free afterwards")
+	// what the requests leave to be done after their answers (snapshot update, notification)
+	// runs unserialised with later requests: it must not touch what those have committed
+	da := w.datatype(vfDUID)
+	vf.Assert(w.logInvariant(vfDUID) && da.Sseq.End == 1+pushed, "C06 work done after the answers leaves the log and its recorded end as committed")
+	vf.Assert(da.RWClients[vfCUIDx] != nil && da.RWClients[vfCUIDx].CP.Cseq == wantX, "C06 ... and the recorded checkpoints")
+	if yKind == 0 {
+		vf.Assert(da.RWClients[vfCUIDy] != nil && da.RWClients[vfCUIDy].CP.Cseq == wantY, "C06 ... and the recorded checkpoints")
+	}
 }
 
 // VF_C13_Race: two clients race SubscribeOrCreate for the same new key (each
